@@ -39,10 +39,10 @@ theorem pow2_of_and_pred (x : Nat) (hx : 0 < x) (h : x &&& (x - 1) = 0) : ∃ i,
     for all `batch, n > 0` the list `bgv.Parameters.GaloisElementsForInnerSum(batch, n)` contains
     every key the call looks up — including the row swap and the rotations for `(batch, n/2)`
     it uses when `n·batch` equals the slot count. -/
-theorem innerSumBGV_keys (S : Ops α) (N maxSlots : Nat) (hms : 1 ≤ maxSlots) (v out0 acc0 : α)
+theorem innerSumBGV_keys (S : Ops α) (N maxSlots : Nat) (hms : 1 ≤ maxSlots) (hasP : Bool) (v out0 acc0 : α)
     (batch n : Int) (hn : 0 < n) (hb : 0 < batch) (hnb : n * batch < 4611686018427387904) :
     ∃ l, galoisElementsForInnerSumBGV N maxSlots batch n = some l ∧
-      ∀ r ∈ (innerSumBGV S N maxSlots v out0 acc0 batch n).reqs, r ∈ l := by
+      ∀ r ∈ (innerSumBGV S N maxSlots hasP v out0 acc0 batch n).reqs, r ∈ l := by
   have hn62 : n ≤ 4611686018427387904 := by nlinarith
   have hnat' : ((n.toNat : Nat) : Int) = n := by omega
   obtain ⟨l, hl, hmem⟩ := req_mem_adv N batch n hn62
@@ -98,28 +98,30 @@ theorem innerSumBGV_keys (S : Ops α) (N maxSlots : Nat) (hms : 1 ≤ maxSlots) 
             rw [this, Int.mul_ediv_cancel _ (by norm_num)]
             exact Int.toNat_natCast _
           -- the look-ups of PartialTracesSum(batch, n/2)
-          have hsub : ∀ r ∈ (partialTracesSum S N v out0 acc0 batch (n / 2)).reqs, r ∈ l := by
+          have hsub : ∀ r ∈ (partialTracesSum S N hasP v out0 acc0 batch (n / 2)).reqs, r ∈ l := by
             intro r hr
             unfold partialTracesSum at hr
             split at hr
             · simp [Res.reqs] at hr
             · split at hr
               · simp [Res.reqs] at hr
-              · simp only [Res.reqs] at hr
-                have := ptsLoop_reqs S S.add true N (n / 2).toNat batch 64 0 _ r (by simpa using hr)
-                rcases this with h | h
-                · simp at h
-                · rw [hhalf] at h
-                  obtain ⟨i, his, hri⟩ := req_pow2 N (s - 1) batch r h
-                  apply hmem r
-                  refine ⟨i, ?_, Or.inl hri⟩
-                  rw [hs]; exact Nat.pow_lt_pow_right (by norm_num) (by omega)
+              · split at hr
+                · simp [Res.reqs] at hr
+                · simp only [Res.reqs] at hr
+                  have := ptsLoop_reqs S S.add true N (n / 2).toNat batch 64 0 _ r (by simpa using hr)
+                  rcases this with h | h
+                  · simp at h
+                  · rw [hhalf] at h
+                    obtain ⟨i, his, hri⟩ := req_pow2 N (s - 1) batch r h
+                    apply hmem r
+                    refine ⟨i, ?_, Or.inl hri⟩
+                    rw [hs]; exact Nat.pow_lt_pow_right (by norm_num) (by omega)
           have hrow : (n * batch > ((maxSlots >>> 1 : Nat) : Int)) := by
             rw [h3, Nat.shiftRight_eq_div_pow]
             have : maxSlots / 2 ^ 1 < maxSlots := Nat.div_lt_self (by omega) (by norm_num)
             exact_mod_cast this
           rw [if_pos hrow]
-          cases hp : partialTracesSum S N v out0 acc0 batch (n / 2) with
+          cases hp : partialTracesSum S N hasP v out0 acc0 batch (n / 2) with
           | err => rw [hp] at hr; simp [Res.reqs] at hr
           | panic => rw [hp] at hr; simp [Res.reqs] at hr
           | ok u reqs =>
@@ -129,7 +131,7 @@ theorem innerSumBGV_keys (S : Ops α) (N maxSlots : Nat) (hms : 1 ≤ maxSlots) 
             · exact List.mem_append_left _ (hsub r h)
             · rw [h]; simp
       · rw [if_neg h3] at hr
-        obtain ⟨l', hl', hmem'⟩ := partialTracesSum_keys S N v out0 acc0 batch n hn62
+        obtain ⟨l', hl', hmem'⟩ := partialTracesSum_keys S N hasP v out0 acc0 batch n hn62
         rw [hl] at hl'; injection hl' with hl'
         have := hmem' r hr
         rw [← hl'] at this
@@ -138,11 +140,11 @@ theorem innerSumBGV_keys (S : Ops α) (N maxSlots : Nat) (hms : 1 ≤ maxSlots) 
         · exact this
 
 /-- `bgv.Parameters.GaloisElementsForReplicate` only extends the rlwe list. -/
-theorem replicateBGV_keys (S : Ops α) (N ringN : Nat) (v out0 acc0 : α) (batch n : Int)
+theorem replicateBGV_keys (S : Ops α) (N ringN : Nat) (hasP : Bool) (v out0 acc0 : α) (batch n : Int)
     (hn : n ≤ 4611686018427387904) :
     ∃ l, galoisElementsForReplicateBGV N ringN batch n = some l ∧
-      ∀ r ∈ (replicate S N v out0 acc0 batch n).reqs, r ∈ l := by
-  obtain ⟨l, hl, hmem⟩ := replicate_keys S N v out0 acc0 batch n hn
+      ∀ r ∈ (replicate S N hasP v out0 acc0 batch n).reqs, r ∈ l := by
+  obtain ⟨l, hl, hmem⟩ := replicate_keys S N hasP v out0 acc0 batch n hn
   unfold galoisElementsForReplicateBGV
   rw [hl]
   refine ⟨_, rfl, ?_⟩
@@ -161,28 +163,34 @@ theorem rotate_keys (S : Ops α) (N : Nat) (v : α) (k : Int) :
   · simp at h
   · exact h
 
-theorem rotateHoisted_keys (S : Ops α) (N : Nat) (v : α) (ks : List Int) :
-    ∀ r ∈ (rotateHoisted S N v ks).2, r ∈ galEls N ks := by
-  unfold rotateHoisted galEls
-  suffices h : ∀ (ks : List Int) (acc : List α × List Nat),
-      ∀ r ∈ (ks.foldl (fun (acc : List α × List Nat) k =>
-        (acc.1 ++ [S.aut (galEl N k) v], request false (galEl N k) acc.2)) acc).2,
-        r ∈ acc.2 ∨ r ∈ ks.map (galEl N) by
-    intro r hr
-    rcases h ks ([], []) r hr with h | h
-    · simp at h
-    · exact h
-  intro ks
-  induction ks with
-  | nil => intro acc r hr; exact Or.inl hr
-  | cons k ks ih =>
-    intro acc r hr
-    rw [List.foldl_cons] at hr
-    rcases ih _ r hr with h | h
-    · rcases mem_request h with h | h
-      · exact Or.inl h
-      · right; rw [h]; simp
-    · right; simp only [List.map_cons, List.mem_cons]; exact Or.inr h
+theorem rotateHoisted_keys (S : Ops α) (N : Nat) (hasP : Bool) (v : α) (ks : List Int) :
+    ∀ res, rotateHoisted S N hasP v ks = some res → ∀ r ∈ res.2, r ∈ galEls N ks := by
+  intro res hres
+  unfold rotateHoisted at hres
+  split at hres
+  · exact absurd hres (by simp)
+  · injection hres with hres
+    rw [← hres]
+    unfold galEls
+    suffices h : ∀ (ks : List Int) (acc : List α × List Nat),
+        ∀ r ∈ (ks.foldl (fun (acc : List α × List Nat) k =>
+          (acc.1 ++ [S.aut (galEl N k) v], request false (galEl N k) acc.2)) acc).2,
+          r ∈ acc.2 ∨ r ∈ ks.map (galEl N) by
+      intro r hr
+      rcases h ks ([], []) r hr with h | h
+      · simp at h
+      · exact h
+    intro ks
+    induction ks with
+    | nil => intro acc r hr; exact Or.inl hr
+    | cons k ks ih =>
+      intro acc r hr
+      rw [List.foldl_cons] at hr
+      rcases ih _ r hr with h | h
+      · rcases mem_request h with h | h
+        · exact Or.inl h
+        · right; rw [h]; simp
+      · right; simp only [List.map_cons, List.mem_cons]; exact Or.inr h
 
 /-! ### values -/
 
@@ -192,7 +200,7 @@ variable [AddCommMonoid α] {S : Ops α} {m : Nat}
 theorem replicate_spec (hS : Lawful S (2 ^ m)) (hm1 : 1 ≤ m) (hm : m ≤ 64)
     (v out0 acc0 : α) (batch n : Int) (hn : 1 ≤ n) (hb : batch ≠ 0)
     (hsmall : n * |batch| < 9223372036854775808) :
-    (replicate S (2 ^ m) v out0 acc0 batch n).val?
+    (replicate S (2 ^ m) true v out0 acc0 batch n).val?
       = some (∑ r ∈ range n.toNat, rot S (2 ^ m) (-((r : Int) * batch)) v) := by
   have habs : |batch| < 9223372036854775808 := by nlinarith [abs_nonneg batch]
   have hb' := abs_lt.mp habs
@@ -200,7 +208,7 @@ theorem replicate_spec (hS : Lawful S (2 ^ m)) (hm1 : 1 ≤ m) (hm : m ≤ 64)
   have hnat : ((n.toNat : Nat) : Int) = n := by omega
   unfold replicate
   rw [hw, partialTracesSum_spec hS hm1 hm v out0 acc0 (-batch) n hn (by nlinarith [abs_pos.mpr hb])
-    (by omega) (noWrapZero_of_small _ _ (by omega) (by rw [hnat, abs_neg]; omega))]
+    (by omega)]
   congr 1
   apply Finset.sum_congr rfl
   intro r _
@@ -211,12 +219,11 @@ theorem replicate_spec (hS : Lawful S (2 ^ m)) (hm1 : 1 ≤ m) (hm : m ≤ 64)
 theorem innerSumCKKS_spec (hS : Lawful S (2 ^ m)) (hm1 : 1 ≤ m) (hm : m ≤ 64) (slots : Nat)
     (v out0 acc0 : α) (batch n : Int) (hn : 0 < n) (hb : 0 < batch)
     (hnb : n * batch < 9223372036854775808) :
-    ∀ x, (innerSumCKKS S (2 ^ m) slots v out0 acc0 batch n).val? = some x →
+    ∀ x, (innerSumCKKS S (2 ^ m) slots true v out0 acc0 batch n).val? = some x →
       x = ∑ r ∈ range n.toNat, rot S (2 ^ m) ((r : Int) * batch) v := by
   intro x hx
   have hnat : ((n.toNat : Nat) : Int) = n := by omega
   have hspec := partialTracesSum_spec hS hm1 hm v out0 acc0 batch n (by omega) (by nlinarith) (by omega)
-    (noWrapZero_of_small _ _ (by omega) (by rw [hnat, abs_of_pos hb]; omega))
   unfold innerSumCKKS at hx
   simp only at hx
   split at hx
@@ -235,7 +242,7 @@ theorem innerSumCKKS_spec (hS : Lawful S (2 ^ m)) (hm1 : 1 ≤ m) (hm : m ≤ 64
 theorem innerSumBGV_spec (hS : Lawful S (2 ^ m)) (hm1 : 1 ≤ m) (hm : m ≤ 64) (slots : Nat)
     (v out0 acc0 : α) (batch n : Int) (hn : 0 < n) (hb : 0 < batch)
     (hnb : n * batch < 9223372036854775808) :
-    ∀ x, (innerSumBGV S (2 ^ m) slots v out0 acc0 batch n).val? = some x →
+    ∀ x, (innerSumBGV S (2 ^ m) slots true v out0 acc0 batch n).val? = some x →
       x = if n * batch = slots ∧ n ≠ 1 then
             (let u := ∑ r ∈ range (n / 2).toNat, rot S (2 ^ m) ((r : Int) * batch) v
              u + S.aut (2 ^ m - 1) u)
@@ -245,7 +252,6 @@ theorem innerSumBGV_spec (hS : Lawful S (2 ^ m)) (hm1 : 1 ≤ m) (hm : m ≤ 64)
   have hw : wrapInt (n * batch) = n * batch :=
     wrapInt_of_small _ (by nlinarith) (by omega)
   have hspec := partialTracesSum_spec hS hm1 hm v out0 acc0 batch n (by omega) (by nlinarith) (by omega)
-    (noWrapZero_of_small _ _ (by omega) (by rw [hnat, abs_of_pos hb]; omega))
   unfold innerSumBGV at hx
   simp only [hw] at hx
   rw [if_neg (by omega)] at hx
@@ -270,8 +276,7 @@ theorem innerSumBGV_spec (hS : Lawful S (2 ^ m)) (hm1 : 1 ≤ m) (hm : m ≤ 64)
           have hnat2 : (((n / 2).toNat : Nat) : Int) = n / 2 := by omega
           have hle : n / 2 ≤ n := by omega
           have hspec2 := partialTracesSum_spec hS hm1 hm v out0 acc0 batch (n / 2) hn2 (by nlinarith) (by omega)
-            (noWrapZero_of_small _ _ (by omega) (by rw [hnat2, abs_of_pos hb]; nlinarith))
-          cases hp : partialTracesSum S (2 ^ m) v out0 acc0 batch (n / 2) with
+          cases hp : partialTracesSum S (2 ^ m) true v out0 acc0 batch (n / 2) with
           | err => rw [hp] at hspec2; simp [Res.val?] at hspec2
           | panic => rw [hp] at hspec2; simp [Res.val?] at hspec2
           | ok u reqs =>
